@@ -85,8 +85,22 @@ def quantizeFold (quantMin quantMax zpIn zpOut mult shift : Int) (vals : List In
 
 /-! ## Rsqrt (int8) -/
 
-/-- loop body of `create_lut_rsqrt_int8_op`; `tbl` is `RSQRT_LUT`, `kshift = -20` -/
+/-- loop body of `create_lut_rsqrt_int8_op` (the current code); `tbl` is `RSQRT_LUT`, `kshift = -20`.
+    `if x_real == 0: values.append(quantized_max); continue` was added by /repo commit 18935f5. -/
 def rsqrtEntry (tbl : List Int) (zpIn zpOut mult shift x : Int) : R := do
+  if x == -128 then return 127
+  let xReal := max 0 (x - zpIn)
+  if xReal == 0 then return 127
+  match tbl[xReal.toNat]? with
+  | none => throw .value                                 -- IndexError
+  | some v =>
+    let r ← multiplyByQuantizedMultiplier v mult (shift - (-20))
+    return clamp (-128) 127 (r + zpOut)
+
+/-- the loop body as it was BEFORE /repo commit 18935f5 (only index −128 forced to the maximum; real input 0 looked up as
+    `RSQRT_LUT[0] = 0`): kept only so that the finding that led to the fix stays documented
+    (`rsqrt_zero_input_witness` in `Props/C19.lean`); not used by the protocol handlers. -/
+def rsqrtEntryOld (tbl : List Int) (zpIn zpOut mult shift x : Int) : R := do
   if x == -128 then return 127
   let xReal := max 0 (x - zpIn)
   match tbl[xReal.toNat]? with
